@@ -105,3 +105,22 @@ def check(chk):
         chk.judge(len(b) == 1 and isinstance(b[0], ast.Expr) and isinstance(b[0].value, ast.Yield) and src(b[0].value.value) == src(n.ast.target), 'C22.fallback', n.ast,
                   'fallback loop yields every host', 'a fallback loop filters hosts')
     chk.require('C22.partition', 8)
+
+    # replicas come from the per-keyspace cache: an entry that exists - even an empty one left by an unknown strategy or a failed build -
+    # is rebuilt when the keyspace changes
+    chk.rule('C22.cache', 'TokenMap.rebuild_keyspace refreshes an existing cache entry on `current is not None` (an empty map is an entry)')
+    mm_ = chk.repo.mod('cassandra/metadata.py')
+    rk = mm_.func('TokenMap.rebuild_keyspace')
+    from ..guards import normalise_atom as _na
+    conds = [n.test for n in ast.walk(rk) if isinstance(n, ast.If) and 'current' in src(n.test)]
+    if not conds:
+        raise AnalysisError('rebuild_keyspace: test on the cached entry not found')
+    atoms_ = set()
+    for t_ in conds:
+        for x in ast.walk(t_):
+            if isinstance(x, ast.Name) and x.id == 'current':
+                from ..core import parent as _p
+                par = _p(x)
+                atoms_.add('is-none' if isinstance(par, ast.Compare) and any(isinstance(o, (ast.Is, ast.IsNot)) for o in par.ops) else 'truthiness')
+    chk.judge(atoms_ == set(['is-none']), 'C22.cache', rk, 'the cached entry is tested with `is None` / `is not None` only',
+              'the entry is tested for truthiness: a cached empty map is never regenerated after ALTER KEYSPACE, get_replicas keeps returning [] and the token-aware plan loses its replicas-first order')
